@@ -86,6 +86,7 @@ inductive Look
   | structMethod (t : Ty) (m : Str)          -- b.Struct(inst).Method(m)
   | structExport (t : Ty) (m : Str)          -- b.Struct(inst).ExportMethod(m)
   | exportStruct (pkg raw m : Str)           -- b.Pkg(pkg).ExportStruct(raw).Method(m)
+  | exportFunc (pkg fn : Str)                -- b.Pkg(pkg).ExportFunc(fn) with fn = `(*T).m` / `T.m` (builder.go:154)
   deriving Repr
 
 /-- a mocker object made with the exported constructors of mocker.go, outside the builder caches -/
@@ -104,6 +105,7 @@ inductive Step
   | rets (h : Nat) (v1 v2 : Int)                           -- h.Returns(v1, v2)      (by-name handles: h.As(f).Returns(..))
   | whenRet (h : Nat) (std : Bool) (v : Int)               -- h.When(args).Return(v)               (method handles only)
   | retsWhen (h : Nat) (v1 v2 : Int) (std : Bool) (v : Int)  -- h.Returns(v1, v2).When(args).Return(v) (method handles only)
+  | origin (h : Nat)                                       -- h.Origin(&placeholder): `m.origin = f` (mocker.go:341, :401)
   | cancel (h : Nat)                                       -- h.Cancel()
   | reset                                                  -- b.Reset()
   deriving Repr
@@ -200,7 +202,11 @@ def lookup (entries : List Entry) (s : HState) : Look → HState × Except Res N
     (c.1, .ok c.2)
   | .exportStruct pkg raw m =>
     let r := getOrCreate s.exports (pkg, raw) (pkg, bracket raw)
-    let c := cached { s with exports := r.1 } ⟨2, pkg, raw, false, m⟩ true (objName r.2.1 r.2.2 m)
+    let c := cached { s with exports := r.1 } ⟨2, pkg, raw, false, m⟩ true (objName (symPrefix r.2.1) r.2.2 m)
+    (c.1, .ok c.2)
+  | .exportFunc pkg fn =>
+    -- builder.go:163: one UnexportedFuncMocker per (package, name), reused unless cancelled; mocker.go:451 objName = pkg.fn
+    let c := cached s ⟨3, pkg, fn, false, []⟩ true (symPrefix pkg ++ '.' :: fn)
     (c.1, .ok c.2)
 
 /-! ## mocker operations -/
@@ -262,7 +268,7 @@ def applyCb (syms : List Str) (s : HState) (id : Nat) (k : Nat) : HState × Res 
 
 /-- the symbol a directly constructed mocker patches: `objName` (mocker.go:373), resp. reflect resolution -/
 def directName (entries : List Entry) : Direct → Except Str Str
-  | .um pkg sn m => .ok (objName pkg sn m)
+  | .um pkg sn m => .ok (objName (symPrefix pkg) sn m)
   | .mm t m => resolveSM entries t m
 
 def Direct.byName : Direct → Bool
@@ -321,6 +327,9 @@ def step (syms : List Str) (entries : List Entry) (s : HState) (k : Nat) : Step 
       match mk.whenS with
       | some w => (setMk s id { mk with whenS := some (((w.rets v1 v2).when std).ret v) }, .ok)
       | none => armStub syms s id mk ((((createWhen none none).rets v1 v2).when std).ret v)
+  | .origin h =>
+    -- the placeholder only selects the trampoline variant of the patch (C03): which method is replaced does not change
+    withMk s h fun _ _ => (s, .ok)
   | .cancel h =>
     withMk s h fun id _ => (cancelMk s id, .ok)
   | .reset => ((cachedIds s).foldl cancelMk s, .ok)
@@ -378,6 +387,7 @@ def lookName (entries : List Entry) : Look → Option Str
   | .structMethod t m => match resolveSM entries t m with | .ok n => some n | .error _ => none
   | .structExport t m => some (exportMethodName t m)
   | .exportStruct pkg raw m => some (exportStructName pkg raw m)
+  | .exportFunc pkg fn => some (symPrefix pkg ++ '.' :: fn)
 
 def stepLook : Step → Option Look
   | .shot l => some l
@@ -407,6 +417,6 @@ def embed : Method.Step → Step
 def keyName (entries : List Entry) (k : CKey) : Option Str :=
   if k.lane = 0 then (match resolveSM entries ⟨k.pkg, k.ty, k.ptr⟩ k.m with | .ok n => some n | .error _ => none)
   else if k.lane = 1 then some (exportMethodName ⟨k.pkg, k.ty, k.ptr⟩ k.m)
-  else some (objName k.pkg (bracket k.ty) k.m)
+  else some (objName (symPrefix k.pkg) (bracket k.ty) k.m)
 
 end MethodH
